@@ -3,6 +3,6 @@ CONSTANTS
   StrictA = FALSE
   CheckCat = FALSE
   CheckOrder = FALSE
-INVARIANTS WellFormed OtherWellFormed
+INVARIANTS BatchOK CopyOK SourceUnaffected
 POSTCONDITION TraceAccepted
 CHECK_DEADLOCK FALSE
